@@ -3,6 +3,8 @@
 A check whose anchored files differ from this baseline escalates its search budget; it never reports a
 violation because of a changed fingerprint alone (DESIGN.md 4.3)."""
 import json, os, sys
+if os.path.realpath(sys.executable) != os.path.realpath("/venv/bin/python") and os.path.exists("/venv/bin/python"):
+    os.execv("/venv/bin/python", ["/venv/bin/python"] + sys.argv)  # ast.dump differs between interpreter versions
 sys.path.insert(0, os.path.dirname(os.path.dirname(os.path.abspath(__file__))))
 from harness.core import fingerprint_files, VERIF, REPO
 props = [json.loads(l) for l in open(os.path.join(VERIF, "properties.jsonl"))]
